@@ -1,6 +1,7 @@
 import RosuModel.Lemmas.ConvertWF
 import RosuModel.Lemmas.TaikoTicks
 import RosuModel.Props.C06
+import RosuModel.Gen.ConvertWrites
 
 /-!
 # C19 — converted maps are well-formed inputs of their target mode
@@ -15,8 +16,9 @@ theorems here are about exact rationals, the driver replays the very same defini
 doubles against the real converter (TTICKS lines).
 
 Not covered by a theorem (oracle only): the pattern generators of the mania converter beyond the
-column arithmetic (which columns are chosen, note durations), and the fact that `catch::convert`
-touches nothing but `mode`/`is_convert`.
+column arithmetic (which columns are chosen, note durations).  Which fields of the map each
+converter writes — for `catch::convert` exactly `mode`/`is_convert` — is a generated fact
+(`Gen/ConvertWrites.lean`, last section).
 -/
 
 namespace Rosu.C19
@@ -217,5 +219,62 @@ theorem mania_final_sort {τ : Type} [DecidableEq τ]
   refine ⟨l', h, legacySort_perm h, ?_⟩
   rw [C06.legacy_sort_keeps_sorted_keys l l' hs h]
   exact hs
+
+/-! ## Which fields of the map the converters write (generated) -/
+
+section Writes
+open Rosu.Gen.ConvertWrites
+
+/-- Every shape met while extracting the converters' writes was understood. -/
+theorem convert_shapes_understood : ∀ row ∈ convertUnknown, row.2 = [] := by decide
+
+/-- **`catch::convert` touches nothing but `mode` and `is_convert`**: its parameter is the map alone
+and its whole body is the two assignments `map.mode = GameMode::Catch; map.is_convert = true;` —
+objects, sounds, control points and difficulty settings are exactly those of the source map. -/
+theorem catch_convert_sets_only_mode_and_flag :
+    convertSignatures.lookup "Catch" = some "(map:&mut Beatmap)" ∧
+    convertStatements.lookup "Catch" = some ["map.mode=GameMode::Catch", "map.is_convert=true"] ∧
+    convertWrites.lookup "Catch" = some [("is_convert", "assign"), ("mode", "assign")] ∧
+    convertMapCalls.lookup "Catch" = some [] := by decide
+
+/-- All three converters set `mode` and `is_convert` by plain assignment, and the wrapper
+`<Mode>::convert` that `Beatmap::convert_ref/convert_mut` call only asserts "unconverted osu! map"
+and delegates. -/
+theorem converters_set_mode_and_flag :
+    (∀ row ∈ convertWrites, ("mode", "assign") ∈ row.2 ∧ ("is_convert", "assign") ∈ row.2) ∧
+    convertWrappers =
+      [("Catch", ["debug_assert!(!map.is_convert&&map.mode==GameMode::Osu)", "convert::convert(map)"]),
+       ("Taiko", ["debug_assert!(!map.is_convert&&map.mode==GameMode::Osu)", "convert::convert(map)"]),
+       ("Mania", ["debug_assert!(!map.is_convert&&map.mode==GameMode::Osu)", "convert::convert(map,mods)"])] := by
+  decide
+
+/-- The set of fields a converter may write does not grow silently: taiko writes the objects, their
+sounds and the effect points (scroll-speed points for converted sliders); mania writes the key
+count into `cs`, replaces the objects and clears the sounds; no converter writes anything else
+(timing/difficulty points, `ar/od/hp`, slider settings, breaks, version stay those of the source).
+The map is otherwise only handed to read-only code: same-file helpers taking `&Beatmap`, `&self`
+lookups, and the mania pattern generators — no function outside convert.rs / convert/mod.rs (and
+the wrappers in mod.rs) has a `&mut Beatmap` parameter. -/
+theorem converter_write_sets :
+    (∀ w ∈ (convertWrites.lookup "Taiko").getD [("?", "?")],
+        w.1 ∈ ["hit_objects", "hit_sounds", "effect_points", "mode", "is_convert"]) ∧
+    (∀ w ∈ (convertWrites.lookup "Mania").getD [("?", "?")],
+        w.1 ∈ ["cs", "hit_objects", "hit_sounds", "mode", "is_convert"]) ∧
+    (∀ row ∈ convertMapCalls, ∀ c ∈ row.2,
+        c ∈ ["helper-ref:should_convert_slider_to_taiko_hits", "helper-ref:target_columns",
+             "method:difficulty_point_at", "method:effect_point_at",
+             "arg-of:EndTimeObjectPatternGenerator::new", "arg-of:HitObjectPatternGenerator::new",
+             "arg-of:PathObjectPatternGenerator::new"]) ∧
+    (∀ row ∈ mutBeatmapFns, ∀ f ∈ row.2,
+        f.1 ∈ ["src/catch/convert.rs", "src/taiko/convert.rs", "src/mania/convert/mod.rs",
+               "src/catch/mod.rs", "src/taiko/mod.rs", "src/mania/mod.rs"] ∧
+        f.2 ∈ ["convert", "apply_random_to_beatmap", "apply_hold_off_to_beatmap", "apply_invert_to_beatmap"]) := by
+  decide
+
+/-- Non-vacuity: taiko does write the effect points, mania does overwrite `cs`. -/
+example : ("effect_points", "borrow-mut") ∈ (convertWrites.lookup "Taiko").getD [] ∧
+    ("cs", "assign") ∈ (convertWrites.lookup "Mania").getD [] := by decide
+
+end Writes
 
 end Rosu.C19
